@@ -659,6 +659,16 @@ var vrtIntrinsics = map[string]intrinsicFn{
 		ex.obligation("assert", a[0].(string), ex.anyTerm(c), nil, site)
 		return nil
 	},
+	"Lemma": func(ex *Exec, _ *ssa.Function, a []Value, site ssa.Instruction) Value {
+		// cut rule: prove the fact on this path, then use it (sound: it is discharged first)
+		c := ex.anyTerm(ex.normInt(a[1]))
+		before := len(ex.res.Violations) + len(ex.res.Undischarged)
+		ex.obligation("assert", a[0].(string), c, nil, site)
+		if len(ex.res.Violations)+len(ex.res.Undischarged) == before && c != ex.b.True {
+			ex.addPC(c)
+		}
+		return nil
+	},
 	"AssertEqF": func(ex *Exec, _ *ssa.Function, a []Value, site ssa.Instruction) Value {
 		tb := ex.b
 		got, want := a[1].(F), a[2].(F)
